@@ -120,6 +120,10 @@ def _check_inproc(pc, goal, axioms, timeout_ms, seed, want_model):
     s.set("rlimit", int(timeout_ms * RLIMIT_PER_MS))
     s.set("timeout", int(timeout_ms * WALL_SLACK))
     s.set("random_seed", seed % (2 ** 31))
+    try:
+        s.set("max_memory", 4000)  # MB per solver process: an `unknown` instead of the kernel's OOM killer
+    except z3.Z3Exception:
+        pass
     for a in axioms:
         s.add(a)
     for p in pc:
